@@ -1,27 +1,25 @@
 (* C16 - any string is either a parsed XPath expression or an XPathParsingError.
-   Statements only; every proof is `exact` of a lemma of XPath/TokFacts.v, ParseFacts.v, ParseSweep.v.
+   Statements only; every proof is `exact` of a lemma of XPath/TokFacts.v or XPath/ParseFacts.v.
 
    Model: XPath/Tok.v (tokenizer), Parse.v (group_enclosed_expressions, expand_axes, partition_tokens,
    parse_location_path / _step, parse_evaluation_expression, Axis / Function constructors, parse,
    XPathParsingError.__str__, lru_cache), over tables regenerated from the source on every run
    (Gen/GenXPath.v).  `parse s : outcome` is what a caller of _delb.xpath.parse(s) observes:
    OOk ast | ORej position message unsupported? | OCrash site | OFuel.
+   Every partial operation of the source (subscript, assert, pop, dictionary lookup, int(), getattr,
+   raise NotImplementedError) is a crash site of the model or a guarded branch; C16_audit ties their
+   number per function to the source.
 
-   The full statement (C16_total_statement below) is FALSE of the faithful model on the unchanged
-   tree: C16_total_refuted lists inputs that leave through a crash site (IndexError, KeyError,
-   AssertionError).  What is true, for every string, without bound:
-     - the tokenizer is total and its lexemes concatenate back to the input          C16_tokens_concat, C16_tokenizer_total
-     - every phase terminates within fuel = length + 1 (OFuel is excluded by proof)   C16_no_other_outcome
-     - parse s is OOk, ORej, or OCrash at one of 14 of the 22 audited crash sites (the other
-       8, among them every subscript / assert after a pattern match, are unreachable)  C16_no_other_outcome
-     - a rejection carries a position inside the expression and renders               C16_position_in_range, C16_renders
-     - the partial operations of the source are exactly those the model accounts for  C16_audit, C16_alternation
-     - parsing is a function of the string (definitional) and the two lru_caches are
-       transparent for every history of earlier calls                                C16_cache, C16_cache_bounded
-     - outside the crash sites the full statement holds                               C16_total_partial *)
+   C16_total holds for the faithful model of the code as it is now, for every string, without bound:
+   all crash sites are proved unreachable and the fuel (length + 1) is proved sufficient.
+   Resource limits: int() of more than sys.get_int_max_str_digits() digits is modelled exactly (the
+   limit is regenerated from the interpreter; the parser maps the ValueError to an XPathParsingError);
+   CPython's recursion limit is not: whether a call runs out of stack depends on the caller's stack depth,
+   so it is an input of `parse_under` (true = the interpreter raised RecursionError somewhere during the
+   call, which parse() maps to XPathParsingError at position 0).  C16_total_under covers both values. *)
 From Coq Require Import List NArith Bool.
 From Delb.Base Require Import PyStr.
-From Delb.XPath Require Import XBase Tok TokFacts Ast Parse ParseFacts Classify ParseSweep.
+From Delb.XPath Require Import XBase Tok TokFacts Ast Parse ParseFacts.
 From Delb.Gen Require Import GenXPath.
 From Delb.XPath Require ParseEnc.   (* the encoder the check evaluates; required here so that it is built *)
 Import ListNotations.
@@ -50,55 +48,38 @@ Theorem C16_tokens_are_lexemes : forall s l,
 Proof. exact tokenize_lexemes. Qed.
 Print Assumptions C16_tokens_are_lexemes.
 
-(* ---- the full statement and its refutation ---- *)
+(* ---- the property ---- *)
 Definition renders (s : str) (p : nat) (m : str) : Prop :=
   exists text, xpe_str (Some s) (Some p) (Some m) = Some text.
 
-Definition C16_total_statement : Prop :=
-  forall s, (exists e, parse s = OOk e)
-            \/ (exists p m u, parse s = ORej p m u /\ p <= length s /\ renders s p m).
+(* for every string: an expression, or an XPathParsingError carrying a position inside the expression and a
+   message that renders; in particular no other exception (OCrash) and termination (OFuel) *)
+Theorem C16_total : forall s,
+  (exists e, parse s = OOk e) \/ (exists p m u, parse s = ORej p m u /\ p <= length s /\ renders s p m).
+Proof. exact total. Qed.
+Print Assumptions C16_total.
 
-Theorem C16_total_refuted :
-  parse [97; 47]%N = OCrash S_step_all_tokens_last   (* a/ *) /\
-  parse [47]%N = OCrash S_step_all_tokens_last   (* / *) /\
-  parse [47; 47]%N = OCrash S_step_all_tokens_last   (* // *) /\
-  parse [115; 101; 108; 102; 58; 58; 110; 111; 100; 101; 40; 41; 91; 49; 93; 47]%N = OCrash S_step_all_tokens_last   (* self::node()[1]/ *) /\
-  parse [108; 97; 115; 116; 40; 41]%N = OCrash S_step_node_type   (* last() *) /\
-  parse [97; 93]%N = OCrash S_group_pop   (* a] *) /\
-  parse [97; 91; 49; 32; 111; 114; 93]%N = OCrash S_expr_operand   (* a[1 or] *) /\
-  parse [97; 91; 61; 93]%N = OCrash S_expr_operand   (* a[=] *) /\
-  parse [102; 111; 111; 40; 49; 41]%N = OCrash S_step_pi_name   (* foo(1) *) /\
-  parse [99; 111; 109; 109; 101; 110; 116; 40; 49; 41]%N = OCrash S_step_pi_name   (* comment(1) *) /\
-  parse [97; 91; 102; 40; 44; 41; 93]%N = OCrash S_expr_empty   (* a[f(,)] *).
-Proof. exact total_refuted. Qed.
-Print Assumptions C16_total_refuted.
+(* the same whether or not the interpreter runs out of stack during the call *)
+Theorem C16_total_under : forall stack_overflow s,
+  (exists e, parse_under stack_overflow s = OOk e)
+  \/ (exists p m u, parse_under stack_overflow s = ORej p m u /\ p <= length s /\ renders s p m).
+Proof. exact total_under. Qed.
+Print Assumptions C16_total_under.
 
-Theorem C16_total_false : ~ C16_total_statement.
-Proof. exact total_false. Qed.
-Print Assumptions C16_total_false.
+Theorem C16_terminates : forall s, parse s <> OFuel.
+Proof. exact terminates. Qed.
+Print Assumptions C16_terminates.
 
-(* ---- what holds for every string ---- *)
-(* OFuel never (termination within fuel = length + 1 is proved); a crash only at a site with
-   site_possible c = true (`unguarded c`).  Proved unreachable, hence excluded: every subscript / assert that
-   follows a token-pattern match, the three dictionary lookups (COMPLEMENTING_TOKEN_TYPES, OPERATORS x2),
-   tokens[0] of the expanded path, tokens[0] of the node test, tokens[-1] of the predicate loop.
-   Remaining: the seven sites that are findings (IndexError x3, KeyError, AssertionError x2, ValueError) and
-   seven isinstance-asserts / NotImplementedError that need the invariant `a group is enclosed by its
-   bracket tokens` (not proved; never hit in any run, and excluded up to the bounds of ParseSweep.v). *)
-Theorem C16_no_other_outcome : forall s,
-  (exists e, parse s = OOk e) \/ (exists p m u, parse s = ORej p m u) \/ (exists c, parse s = OCrash c /\ unguarded c).
-Proof. exact no_other_outcome. Qed.
-Print Assumptions C16_no_other_outcome.
+Theorem C16_no_other_exception : forall s c, parse s <> OCrash c.
+Proof. exact never_crashes. Qed.
+Print Assumptions C16_no_other_exception.
 
 Theorem C16_position_in_range : forall s p m u, parse s = ORej p m u -> p <= length s.
 Proof. exact position_in_range. Qed.
 Print Assumptions C16_position_in_range.
 
-Theorem C16_renders : forall s p m u, parse s = ORej p m u -> renders s p m.
-Proof. exact rejection_renders. Qed.
-Print Assumptions C16_renders.
-
-(* ---- cache half: lru_cache(64) on tokenize and on parse, exceptions not cached ---- *)
+(* ---- cache half: lru_cache(64) on tokenize and on parse, exceptions not cached ----
+   (determinism is definitional: parse is a function of the string) *)
 Theorem C16_cache : forall history s, snd (parse_cached (run history) s) = parse s.
 Proof. exact parse_cache_transparent. Qed.
 Print Assumptions C16_cache.
@@ -108,44 +89,43 @@ Theorem C16_cache_bounded : forall cs s,
 Proof. exact parse_cache_bounded. Qed.
 Print Assumptions C16_cache_bounded.
 
-(* ---- the full statement under the decidable guard "the model does not leave through a crash site" ----
-   crash_free s is computed by running the model.  The finding classes of Classify.v are decidable on
-   the token list alone; that every crash lies in the class of its site (so that `unclassified s = true`
-   could replace `crash_free s = true`) is proved for all strings up to the bounds of
-   C16_sites_in_classes_bounded and compared on every case of every check run, not proved in general:
-       forall s, site_in_class s = true                                      (open) *)
-Theorem C16_total_partial : forall s, crash_free s = true ->
-  (exists e, parse s = OOk e) \/ (exists p m u, parse s = ORej p m u /\ p <= length s /\ renders s p m).
-Proof. exact total_partial. Qed.
-Print Assumptions C16_total_partial.
-
-Theorem C16_sites_in_classes_bounded : forall s,
-  (length s <= 3 /\ Forall (fun c => In c alpha14) s) \/ (length s <= 5 /\ Forall (fun c => In c alpha8) s) ->
-  site_in_class s = true.
-Proof. exact sites_in_classes_bounded. Qed.
-Print Assumptions C16_sites_in_classes_bounded.
+(* ---- regression: the inputs of the nine repaired findings are rejected now ---- *)
+Theorem C16_regression :
+  parse [97; 47]%N = ORej 0 msg_parse_location_step_0 false   (* a/ *) /\
+  parse [47]%N = ORej 0 msg_parse_location_step_0 false   (* / *) /\
+  parse [47; 47]%N = ORej 0 msg_parse_location_step_0 false   (* // *) /\
+  parse [115; 101; 108; 102; 58; 58; 110; 111; 100; 101; 40; 41; 91; 49; 93; 47]%N = ORej 0 msg_parse_location_step_0 false   (* self::node()[1]/ *) /\
+  parse [108; 97; 115; 116; 40; 41]%N = ORej 0 msg_parse_location_step_3 false   (* last() *) /\
+  parse [97; 93]%N = ORej 1 (msg_group_enclosed_expressions_0 [93%N]) false   (* a] *) /\
+  parse [97; 91; 49; 32; 111; 114; 93]%N = ORej 4 (msg_parse_evaluation_expression_2 [111; 114]%N) false   (* a[1 or] *) /\
+  parse [97; 91; 61; 93]%N = ORej 2 (msg_parse_evaluation_expression_2 [61%N]) false   (* a[=] *) /\
+  parse [102; 111; 111; 40; 49; 41]%N = ORej 0 msg_parse_location_step_2 false   (* foo(1) *) /\
+  parse [99; 111; 109; 109; 101; 110; 116; 40; 49; 41]%N = ORej 0 msg_parse_location_step_2 false   (* comment(1) *) /\
+  parse [97; 91; 102; 40; 44; 41; 93]%N = ORej 0 msg_parse_evaluation_expression_0 false   (* a[f(,)] *) /\
+  parse [95; 95; 100; 105; 99; 116; 95; 95; 58; 58; 97]%N = ORej 0 msg_Axis_0 false   (* __dict__::a *) /\
+  parse [97; 110; 99; 101; 115; 116; 111; 114; 95; 111; 114; 95; 115; 101; 108; 102; 58; 58; 97]%N = ORej 0 msg_Axis_0 false   (* ancestor_or_self::a *).
+Proof. exact regression. Qed.
+Print Assumptions C16_regression.
 
 (* ---- non-vacuity ---- *)
-(* //a[@k='v' and position()=1]|b  parses; the guard of C16_total_partial holds *)
+(* //a[@k='v' and position()=1]|b  parses *)
 Example C16_example_ok :
-  let s := [47; 47; 97; 91; 64; 107; 61; 39; 118; 39; 32; 97; 110; 100; 32; 112; 111; 115; 105; 116; 105; 111; 110; 40; 41; 61; 49; 93; 124; 98]%N in
-  crash_free s = true /\ unclassified s = true /\
-  parse s = OOk [LocationPath true
-                   [LocationStep AxDescendantOrSelf (NodeTypeTest KTagNode) [];
-                    LocationStep AxChild (NameMatchTest None [97%N])
-                      [BooleanOperator OpAnd
-                         (BooleanOperator OpEq (AttributeValue None [107%N]) (AnyValue (VStr [118%N])))
-                         (BooleanOperator OpEq (Function [112;111;115;105;116;105;111;110]%N []) (AnyValue (VNum 1%N)))]];
-                 LocationPath false [LocationStep AxChild (NameMatchTest None [98%N]) []]].
-Proof. vm_compute. repeat split; reflexivity. Qed.
+  parse [47; 47; 97; 91; 64; 107; 61; 39; 118; 39; 32; 97; 110; 100; 32; 112; 111; 115; 105; 116; 105; 111; 110; 40; 41; 61; 49; 93; 124; 98]%N
+  = OOk [LocationPath true
+           [LocationStep AxDescendantOrSelf (NodeTypeTest KTagNode) [];
+            LocationStep AxChild (NameMatchTest None [97%N])
+              [BooleanOperator OpAnd
+                 (BooleanOperator OpEq (AttributeValue None [107%N]) (AnyValue (VStr [118%N])))
+                 (BooleanOperator OpEq (Function [112;111;115;105;116;105;111;110]%N []) (AnyValue (VNum 1%N)))]];
+         LocationPath false [LocationStep AxChild (NameMatchTest None [98%N]) []]].
+Proof. vm_compute. reflexivity. Qed.
 
 (* a[  is rejected at position 1 with a message that renders *)
 Example C16_example_rejected :
-  exists m text, parse [97; 91]%N = ORej 1 m false /\ xpe_str (Some [97; 91]%N) (Some 1) (Some m) = Some text
-                 /\ crash_free [97; 91]%N = true.
-Proof. eexists. eexists. vm_compute. repeat split; reflexivity. Qed.
+  exists m text, parse [97; 91]%N = ORej 1 m false /\ xpe_str (Some [97; 91]%N) (Some 1) (Some m) = Some text.
+Proof. eexists. eexists. vm_compute. split; reflexivity. Qed.
 
-(* a history that fills the parse cache with a, evicts nothing, then asks again *)
+(* a history with hits, misses, an uncached exception and a cleared cache *)
 Example C16_example_cache :
   snd (parse_cached (run [EvParse [97%N]; EvParse [97; 47]%N; EvTokenize [98%N]; EvClearTokenize; EvParse [97%N]]) [97%N])
   = parse [97%N]
